@@ -40,6 +40,15 @@ CHECKS = [
              "gradient != exact derivative, metric(dx) != closed-form Fisher information, and J^T J != metric for "
              "get_transformation().",
      "design_ref": "DESIGN.md 4/C11"},
+    {"property_id": "C04", "engine": "A", "category": "other", "technique": TECH_A + "; oracle = the original operator on the full input",
+     "note": NOTE_A + " Known finding (known_findings.txt): StandardHamiltonian drops the constant keys' prior energy.",
+     "text": "Bounded symbolic verification: for 46 multi-key operator/energy expressions (products, sums, chains, linear "
+             "Sum/ChainOperators on partial domains, multi-key targets, Gaussian/Poisson/variable-covariance likelihoods, "
+             "likelihood sums/scalings, StandardHamiltonian) and EVERY non-empty proper subset of keys held constant, z3 "
+             "refutes for ALL inputs, constants and directions any difference between the specialised operator and the "
+             "original in value, Jacobian, adjoint Jacobian and metric block; make_partial_var has zero adjoint Jacobian on "
+             "constant keys; EnergyAdapter(constants=...) has no gradient component on constant keys and at() keeps them.",
+     "design_ref": "DESIGN.md 4/C04"},
 ]
 
 ALL = [f"C{i:02d}" for i in range(1, 37)]
